@@ -8,6 +8,7 @@ models of Algo/TextIO.v and evaluates the predicates of Spec/PC06Text.v on the i
 """
 import io
 import math
+import re
 
 from ..core import cbool, clist, cnat, copt, cpair, cstr, cZ
 from ._base import *  # noqa
@@ -18,6 +19,10 @@ SERVES = ["C06"]
 COQ_TARGETS = ["theories/Corr/TextIOCorr.vo", "theories/Props/C06_text.vo"]
 
 STYLE_NAMES = ["ansi", "ascii", "const", "const_bold", "rounded", "double"]
+# (branch, final stem) of the built-in styles, written out here (not read from bigtree)
+STYLE_GLYPHS = [("|-- ", "`-- "), ("|-- ", "+-- "), ("\u251c\u2500\u2500 ", "\u2514\u2500\u2500 "),
+                ("\u2523\u2501\u2501 ", "\u2517\u2501\u2501 "), ("\u251c\u2500\u2500 ", "\u2570\u2500\u2500 "),
+                ("\u2560\u2550\u2550 ", "\u255a\u2550\u2550 ")]
 
 
 def coq_header(prop):
@@ -43,19 +48,53 @@ def _build(tj, cls):
     return n
 
 
+def _build_binary(tj, cls):
+    """BinaryNode tree: an only child goes to the right slot when its name has odd length"""
+    name, attrs, kids = tj
+    n = cls(name, **attrs)
+    ks = [_build_binary(k, cls) for k in kids]
+    if len(ks) == 1:
+        ks = [None, ks[0]] if len(kids[0][0]) % 2 else [ks[0], None]
+    if ks:
+        n.children = ks
+    return n
+
+
+_DEC = re.compile(r"-?\d+\.\d+\Z")
+
+
+def _float(v):
+    """a float whose repr is positional [-]ddd.ddd -> (digits without the dot, 10^k); else its exact ratio"""
+    r = repr(v)
+    if _DEC.match(r):
+        k = len(r) - r.index(".") - 1
+        return {"float": [int(r.replace(".", "")), 10 ** k]}
+    if math.isfinite(v):
+        a, b = v.as_integer_ratio()
+        return {"float": [a, b]}
+    return {"float": [0, 0]}
+
+
 def _val(v):
     if isinstance(v, float):
-        if math.isfinite(v):
-            a, b = v.as_integer_ratio()
-            return {"float": [a, b]}
-        return {"float": [0, 0]}
+        return _float(v)
     if v is None or isinstance(v, (bool, int, str)):
         return v
     return {"other": type(v).__name__}
 
 
-def _observe(root):
+class Unobservable(Exception):
+    pass
+
+
+def _observe(root, cls=None):
     from bigtree.utils.iterators import preorder_iter
+    if root.parent is not None:
+        raise Unobservable("the constructor returned a node that is not a root")
+    if cls is not None:
+        bad = [type(n).__name__ for n in preorder_iter(root) if type(n) is not cls]
+        if bad:
+            raise Unobservable(f"node_type not honoured: {bad[:3]}")
     d0 = root.depth
     out = []
     for n in preorder_iter(root):
@@ -64,55 +103,124 @@ def _observe(root):
     return out
 
 
+def _snapshot(root):
+    from bigtree.utils.iterators import preorder_iter
+    top = root.root
+    return [(id(n), id(n.parent), n.node_name, sorted((k, repr(v)) for k, v in n.__dict__.items() if not k.startswith("_")),
+             [id(c) for c in n.children]) for n in preorder_iter(top)]
+
+
 def run_impl(prop, case):
+    from bigtree.node.binarynode import BinaryNode
     from bigtree.node.node import Node
     from bigtree.tree.construct import newick_to_tree, str_to_tree
     from bigtree.tree.export import print_tree, tree_to_newick
+    from bigtree.utils import constants
+
+    class Sub(Node):
+        """a user subclass handed to the constructors as node_type"""
 
     kind = case["kind"]
+    ntype = Sub if case.get("subclass") else None
+    tkw = {"node_type": Sub} if ntype else {}
     if kind == "nw":
         root = _build(case["tree"], Node)
         if not case["isroot"]:
             holder = Node("holder")
             root.parent = holder
         cfg = case["cfg"]
+        kw = dict(intermediate_node_name=cfg["inter"], length_attr=cfg["len"], length_sep=cfg["lsep"],
+                  attr_list=list(cfg["attrs"]), attr_prefix=cfg["prefix"], attr_sep=cfg["asep"])
+        pkw = dict(length_attr=cfg["len"] or "length", attr_prefix=cfg["prefix"])
+        if case.get("defaults"):
+            # leave every argument that has its default value to the callee (enum-valued defaults)
+            dflt = dict(intermediate_node_name=True, length_attr="", length_sep=":", attr_list=[],
+                        attr_prefix="&&NHX:", attr_sep=":")
+            kw = {k: v for k, v in kw.items() if v != dflt[k]}
+            pkw = {k: v for k, v in pkw.items() if v != dict(length_attr="length", attr_prefix="&&NHX:")[k]}
+        before = _snapshot(root)
         try:
-            out = tree_to_newick(
-                root, intermediate_node_name=cfg["inter"], length_attr=cfg["len"], length_sep=cfg["lsep"],
-                attr_list=list(cfg["attrs"]), attr_prefix=cfg["prefix"], attr_sep=cfg["asep"])
+            out = tree_to_newick(root, **kw)
         except Exception:
-            return {"out": None, "back": None}
-        if not isinstance(out, str):
+            out = None
+        if out is not None and not isinstance(out, str):
             return {"_harness_error": "tree_to_newick returned " + type(out).__name__}
+        if _snapshot(root) != before:
+            return {"_harness_error": "tree_to_newick changed its input tree"}
         try:
-            back = _observe(newick_to_tree(out, length_attr=cfg["len"] or "length", attr_prefix=cfg["prefix"]))
+            again = tree_to_newick(root, **kw)
+        except Exception:
+            again = None
+        if again != out:
+            return {"_harness_error": "tree_to_newick is not repeatable on the same tree"}
+        if out is None:
+            return {"out": None, "back": None}
+        try:
+            back = _observe(newick_to_tree(out, **pkw, **tkw), ntype)
+        except Unobservable as e:
+            return {"_harness_error": str(e)}
         except Exception:
             back = None
         return {"out": out, "back": back}
     if kind == "nwparse":
         try:
-            back = _observe(newick_to_tree(case["s"], length_attr=case["la"], attr_prefix=case["pf"]))
+            back = _observe(newick_to_tree(case["s"], length_attr=case["la"], attr_prefix=case["pf"], **tkw), ntype)
+        except Unobservable as e:
+            return {"_harness_error": str(e)}
         except Exception:
             back = None
         return {"back": back}
     if kind == "pr":
-        root = _build(case["tree"], Node)
+        if case.get("binary"):
+            root = _build_binary(case["tree"], BinaryNode)
+        else:
+            root = _build(case["tree"], Node)
+        if not case.get("isroot", True):
+            holder = Node("holder")
+            Node("elder", parent=holder)
+            root.parent = holder
+            Node("younger", parent=holder)
         st = case["style"]
-        style = STYLE_NAMES[st[1]] if st[0] == "name" else list(st[1:])
-        buf = io.StringIO()
-        try:
-            print_tree(root, style=style, file=buf)
-            out = buf.getvalue()
-        except Exception:
+        if st[0] == "name":
+            style = STYLE_NAMES[st[1]]
+        elif st[0] == "object":
+            style = [constants.ANSIPrintStyle, constants.ASCIIPrintStyle, constants.ConstPrintStyle,
+                     constants.ConstBoldPrintStyle, constants.RoundedPrintStyle, constants.DoublePrintStyle][st[1]]
+        else:
+            style = list(st[1:])
+        kw = {"style": style}
+        if case.get("md", 0):
+            kw["max_depth"] = case["md"]
+        before = _snapshot(root)
+        outs = []
+        for _ in range(2):
+            buf = io.StringIO()
+            try:
+                print_tree(root, file=buf, **kw)
+                outs.append(buf.getvalue())
+            except Exception:
+                outs.append(None)
+        if _snapshot(root) != before:
+            return {"_harness_error": "print_tree changed its input tree"}
+        if outs[0] != outs[1]:
+            return {"_harness_error": "print_tree is not repeatable on the same tree"}
+        out = outs[0]
+        if out is None:
             return {"out": None, "back": None}
+        pkw = {"tree_prefix_list": list(case["plist"])} if case.get("plist") else {}
         try:
-            back = _observe(str_to_tree(out))
+            back = _observe(str_to_tree(out, **pkw, **tkw), ntype)
+        except Unobservable as e:
+            return {"_harness_error": str(e)}
         except Exception:
             back = None
         return {"out": out, "back": back}
     if kind == "stparse":
+        pkw = {"tree_prefix_list": list(case["plist"])} if case.get("plist") else {}
         try:
-            back = _observe(str_to_tree(case["s"]))
+            back = _observe(str_to_tree(case["s"], **pkw, **tkw), ntype)
+        except Unobservable as e:
+            return {"_harness_error": str(e)}
         except Exception:
             back = None
         return {"back": back}
@@ -130,6 +238,9 @@ def _cval(v):
         return f"VBool {cbool(v)}"
     if isinstance(v, int):
         return f"VInt {cZ(v)}"
+    if isinstance(v, float):
+        v = _float(v)
+        return f"VFloat {cZ(v['float'][0])} {cZ(v['float'][1])}"
     if isinstance(v, str):
         return f"VStr {cstr(v)}"
     if isinstance(v, dict) and "float" in v:
@@ -171,10 +282,14 @@ def emit(prop, case, obs):
         return f"CNwParse {cstr(case['la'])} {cstr(case['pf'])} {cstr(case['s'])} {_cobs(obs['back'])}"
     if kind == "pr":
         st = case["style"]
-        sa = f"(SName {st[1]})" if st[0] == "name" else f"(SCustom {cstr(st[1])} {cstr(st[2])} {cstr(st[3])})"
-        return f"CPrint {sa} ({_ctree(case['tree'], [0])}) {_cout(obs['out'])} {_cobs(obs['back'])}"
+        sa = (f"(SName {st[1]})" if st[0] in ("name", "object")
+              else f"(SCustom {cstr(st[1])} {cstr(st[2])} {cstr(st[3])})")
+        pl = clist(cstr(p) for p in case.get("plist", []))
+        return (f"CPrint {sa} {int(case.get('md', 0))} {pl} ({_ctree(case['tree'], [0])}) "
+                f"{_cout(obs['out'])} {_cobs(obs['back'])}")
     if kind == "stparse":
-        return f"CStParse {cstr(case['s'])} {_cobs(obs['back'])}"
+        pl = clist(cstr(p) for p in case.get("plist", []))
+        return f"CStParse {pl} {cstr(case['s'])} {_cobs(obs['back'])}"
     raise ValueError(kind)
 
 
@@ -187,7 +302,7 @@ NW_POOLS = {
     "repeated": ["a", "b", "a", "c", "b", "a", "c", "b", "a", "c", "a", "b"],
     "affix": ["a", "xa", "ab", "b", "bc", "abc", "c", "xab", "ba", "x", "bx", "cab"],
     "special": ["a:b", "(", ")", "[x]", "a,b", "k=v", "a b", " lead", "trail ", "a;", "node0", "0", "12",
-                "x\"y", "été", "a(b)c", ":", ",", "=", "[", "]", "a\tb", "1.5", "-3", "q,", "a:", "(x", "y)"],
+                "x\"y", "été", "a(b)c", ":", ",", "=", "[", "]", "a\tb", "1.5", "-3", "q,", "a:", "(x", "y)", " ", "007"],
 }
 # outside it: names containing the quote character
 NW_QUOTED = ["a'b", "'", "it's", "'a'", "x:'y"]
@@ -201,7 +316,7 @@ PR_POOLS = {
                 "[k=v]", "node0", "~", "|", "a:b", "+-- q"],
 }
 # outside it
-PR_OUT = [" lead", "été", "a│b", "\tq", "a\nb", "  x", "├── z", "a "]
+PR_OUT = [" lead", "été", "a│b", "\tq", "a\nb", "  x", "├── z", "a ", "x ├── y", "p└──", "╠══ w"]
 
 ATTR_KEYS = ["k", "sp", "B", "a:b", "x y", "k=1"]
 ATTR_VALS_IN = ["human", "v", "x:y", "a b", "(1)", "7", "p=q", "[z]", "u,v", "w\"w"]
@@ -300,8 +415,13 @@ def gen_newick(rng, nmax=11):
     if mode in ("len", "both", "seps"):
         cfg["len"] = rng.choice(["length", "age", "L"])
         bad = rng.random() < 0.12
+        floats = rng.random() < 0.18
         for i in range(n):
             attrs[i][cfg["len"]] = rng.choice([1, 7, 40, 65, 100, 999, 12345])
+            if floats and rng.random() < 0.6:
+                attrs[i][cfg["len"]] = rng.choice([0.5, 2.0, 1.25, 12.5, 0.05, 100.0, 3.75, 1e-05, -1.5])
+        if floats:
+            label += "/len-float-out"
         if bad:
             i = rng.randrange(n)
             choice = rng.choice(["zero", "missing", "str", "neg", "true"])
@@ -338,7 +458,8 @@ def gen_newick(rng, nmax=11):
     isroot = rng.random() >= 0.15
     if quoted:
         label += "/quote-out"
-    case = {"kind": "nw", "tree": _to_tree(kids, names, attrs), "cfg": cfg, "isroot": isroot}
+    case = {"kind": "nw", "tree": _to_tree(kids, names, attrs), "cfg": cfg, "isroot": isroot,
+            "defaults": rng.random() < 0.5, "subclass": rng.random() < 0.25}
     return f"newick/{shape}/{pool_name}/{label}", case
 
 
@@ -377,7 +498,51 @@ def gen_print(rng, nmax=11):
     if outside:
         lab += "/name-out"
     case = {"kind": "pr", "tree": _to_tree(kids, names, attrs), "style": style}
+    if style[0] == "name" and rng.random() < 0.2:
+        case["style"] = ["object", style[1]]          # constants.<X>PrintStyle instead of its name
+        lab += "/object"
+    u = rng.random()
+    if u < 0.15:
+        case["md"] = rng.randint(1, 4)
+        lab += "/max_depth"
+    if rng.random() < 0.15:
+        case["isroot"] = False                        # printed from an inner node of a larger tree
+        lab += "/inner"
+    if rng.random() < 0.25:
+        case["subclass"] = True
+    v = rng.random()
+    if v < 0.22:
+        if style[0] == "custom":
+            br, fi = style[2], style[3]
+        else:
+            br, fi = STYLE_GLYPHS[style[1]]
+        pl = [br.rstrip(" "), fi.rstrip(" ")]
+        w = rng.random()
+        if w < 0.15:
+            pl = pl[:1]                               # incomplete list
+        elif w < 0.25:
+            pl = ["x", "yy"]                          # matches nothing
+        elif w < 0.35:
+            pl = [br, fi]                             # with the trailing blank
+        if all(pl) and not any(ch in ".^$*+?{}[]\\|()" for q in pl for ch in q):
+            case["plist"] = pl
+            lab += "/prefix_list"
     return f"print/{shape}/{pool_name}/{lab}", case
+
+
+def gen_print_binary(rng):
+    """BinaryNode trees with empty slots: printed like the tree without the empty slots"""
+    n = rng.randint(2, 9)
+    kids = [[] for _ in range(n)]
+    for i in range(1, n):
+        cands = [q for q in range(i) if len(kids[q]) < 2]
+        kids[rng.choice(cands[-3:])].append(i)
+    names = _names(rng, kids, PR_POOLS[rng.choice(["distinct", "affix", "repeated"])])
+    style = ["name", rng.choice([2, 3, 4, 5])]
+    case = {"kind": "pr", "tree": _to_tree(kids, names, [dict() for _ in kids]), "style": style, "binary": True}
+    if rng.random() < 0.2:
+        case["md"] = rng.randint(1, 3)
+    return "print/binary", case
 
 
 NW_ALPHA = "ab(),:'[]=1 &"
@@ -416,7 +581,7 @@ def _impl_free_newick(tj, rng):
         lab = name if not set(name) & set("()[]=':,") else "'" + name.replace("'", "") + "'"
     s += lab
     if rng.random() < 0.3:
-        s += ":" + rng.choice(["1", "20", "007", "0", "3"])
+        s += ":" + rng.choice(["1", "20", "007", "0", "3", "0.5", "2.0", "-3", "12.25", "1.", "1e3", "-0.0"])
     if rng.random() < 0.25:
         kv = ":".join(f"{k}={v}" for k, v in rng.sample([("k", "v"), ("b", "'x:y'"), ("'a b'", "1"), ("k", "w")], rng.randint(1, 2)))
         s += "[" + rng.choice(["&&NHX:", "&&NHX:", ""]) + kv + "]"
@@ -439,7 +604,7 @@ def gen_nwparse(rng):
         if u < 0.7:
             s = _mutate(rng, s, NW_ALPHA)
             lab = "mutated"
-    return f"nwparse/{lab}", {"kind": "nwparse", "s": s, "la": la, "pf": pf}
+    return f"nwparse/{lab}", {"kind": "nwparse", "s": s, "la": la, "pf": pf, "subclass": rng.random() < 0.25}
 
 
 def _ref_lines(tj, stem, branch, final, pfx=""):
@@ -458,12 +623,16 @@ ST_ALPHA = "ab │├─└\n"
 def gen_stparse(rng):
     kids = _shape(rng, rng.choice(SHAPES), 8)
     names = _names(rng, kids, PR_POOLS[rng.choice(["distinct", "affix", "special"])])
-    tj = _to_tree(kids, names, [dict() for _ in kids])
     stem, branch, final = rng.choice([
         ("│   ", "├── ", "└── "),
         ("│ ", "├ ", "└ "),
         ("    ", "    ", "    "),
     ])
+    if stem.strip() and rng.random() < 0.3:
+        # a name that itself contains a prefix glyph: only the text after the LAST prefix is the name
+        i = rng.randrange(1, len(names))
+        names[i] = names[i] + " " + rng.choice([branch, final]) + "z" + str(i)
+    tj = _to_tree(kids, names, [dict() for _ in kids])
     lines = [tj[0]] + _ref_lines(tj, stem, branch, final)
     u = rng.random()
     lab = "wellformed"
@@ -484,7 +653,12 @@ def gen_stparse(rng):
     if u >= 0.7:
         s = _mutate(rng, s, ST_ALPHA)
         lab = "mutated"
-    return f"stparse/{lab}", {"kind": "stparse", "s": s}
+    case = {"kind": "stparse", "s": s, "subclass": rng.random() < 0.25}
+    if stem.strip() and rng.random() < 0.45:
+        case["plist"] = rng.choice([[branch.rstrip(" "), final.rstrip(" ")], [branch, final], [final.rstrip(" ")],
+                                    [final.rstrip(" "), branch.rstrip(" ")]])
+        lab += "/prefix_list"
+    return f"stparse/{lab}", case
 
 
 def _t(name, *kids, **attrs):
@@ -516,13 +690,21 @@ def corpus(prop):
         ("nwparse-reopen", {"kind": "nwparse", "s": "(a)(b)c", "la": "length", "pf": "&&NHX:"}),
         ("nwparse-below", {"kind": "nwparse", "s": "a)(", "la": "length", "pf": "&&NHX:"}),
         ("stparse-jump", {"kind": "stparse", "s": "a\n└── b\n            └── c\n└── d\n"}),
+        ("nwparse-float-docstring", {"kind": "nwparse", "s": "(child1:0.5,child2:0.1)parent", "la": "length", "pf": "&&NHX:"}),
+        ("newick-float-length", {"kind": "nw", "tree": _t("a", _t("b", _t("d", age=0.5), age=2.0), _t("c", age=12.25)),
+                                 "cfg": dict(dflt, len="age"), "isroot": True, "defaults": True}),
+        ("stparse-docstring-prefix", {"kind": "stparse", "plist": ["├──", "└──"],
+                                      "s": "a\n├── b\n│   ├── d\n│   └── e\n│       ├── g\n│       └── h\n└── c\n    └── f"}),
+        ("print-prefix-nonascii", {"kind": "pr", "tree": _t("r", _t("été", _t("x y")), _t("b")), "style": ["name", 2],
+                                   "plist": ["├──", "└──"]}),
+        ("print-inner-maxdepth", {"kind": "pr", "tree": deep, "style": ["object", 4], "md": 3, "isroot": False, "subclass": True}),
     ]
     return out
 
 
 def generate(prop, rng, tier):
     scale = {"quick": 1, "thorough": 12, "search": 3}[tier]
-    plan = [(gen_newick, 760), (gen_print, 520), (gen_nwparse, 190), (gen_stparse, 150)]
+    plan = [(gen_newick, 760), (gen_print, 500), (gen_print_binary, 40), (gen_nwparse, 190), (gen_stparse, 150)]
     for fn, count in plan:
         for _ in range(count * scale):
             yield fn(rng)
@@ -632,13 +814,20 @@ def sample(prop, case, obs):
 
 def rule(prop):
     return ("textual exports: random trees (2-11 nodes; shapes wide/deep/mixed/path/star/comb; name pools distinct/"
-            "repeated/affix/special incl. all Newick specials, blanks, digits, double quote, non-ASCII; a small "
-            "stream outside the documented alphabets) x Newick option strata (plain / no intermediate names / "
-            "length / attributes / both / non-default separators / exported from a non-root node) and x print "
-            "styles (6 built-in + custom); the implementation's own text is re-imported by the implementation; "
-            "plus parser-only streams (generator-written, mutated and random texts). non-trivial = tree with "
-            ">= 3 nodes whose export was re-imported without exception (parser-only: text of >= 3 characters); "
-            "distinct by canonical JSON hash")
+            "repeated/affix/special incl. all Newick specials, blanks-only, digits-only, nodeN, double quote, non-ASCII; "
+            "a small stream outside the documented alphabets) x Newick option strata (plain / no intermediate names / "
+            "int and float lengths / attributes / both / non-default separators and prefixes / arguments left to their "
+            "enum-valued defaults / exported from a non-root node / node_type = user subclass) and x print strata "
+            "(6 built-in styles by name and as style objects, custom styles, max_depth, printed from an inner node, "
+            "BinaryNode trees with empty slots, str_to_tree with and without tree_prefix_list); every exporter is called "
+            "twice and must return the same text and leave the tree untouched; the implementation's own text is "
+            "re-imported by the implementation (rebuilt root must be a root, all nodes of the requested node_type); "
+            "plus parser-only streams (generator-written incl. unnamed nodes / quoted labels / float lengths, mutated "
+            "and random texts). Model and implementation are compared on EVERY case, also outside the alphabets "
+            "(F_SKIP there only means the round-trip predicates are not claimed); only float()/repr forms with "
+            "exponents and regex-metacharacter prefix lists are not compared. non-trivial = tree with >= 3 nodes "
+            "whose export was re-imported without exception (parser-only: text of >= 3 characters); distinct by "
+            "canonical JSON hash")
 
 
 def explain(prop, case, obs, flags):
@@ -657,9 +846,15 @@ def partial_clauses(prop):
     return [
         "Newick: non-default length_sep / attr_sep are outside the round-trip claim (newick_to_tree only knows ':'); "
         "with neither length nor attributes requested any separator is covered (C06_newick_roundtrip_anysep)",
-        "float lengths (float()/repr) are not modelled (cases are skipped); lengths in the theorems are positive integers",
-        "str_to_tree with a non-empty tree_prefix_list (re.split) is not modelled; print_tree with attributes / "
-        "max_depth / node_name_or_path is not part of this engine (C18 renders)",
+        "float lengths: the theorems and the round-trip predicate cover positive integer lengths; floats are compared "
+        "model-vs-implementation only, for positional decimals of <= 15 digits (exponent forms, inf, nan: not compared)",
+        "str_to_tree with tree_prefix_list: modelled and compared for literal prefixes (no regex metacharacter); no "
+        "theorem; regex prefixes and names with non-ASCII whitespace are not compared",
+        "accepted blind spots of this engine: print_tree's attribute options (attr_list, all_attrs, attr_omit_null, "
+        "attr_bracket) and node_name_or_path are left to the render engine (C18) and to C14; tree_to_newick on "
+        "BinaryNode trees with empty slots (writes empty labels, no round trip claimed) and on non-str names / "
+        "non-list attr_list iterables is not exercised; exception classes are compared only as accepted/rejected; "
+        "node sep and private fields of rebuilt nodes are not observed",
     ]
 
 
